@@ -1,12 +1,14 @@
 (* C07 — Rewritten trees are structurally sound and leave the untouched context intact.
    At the level of the model, structural soundness is by construction: `expr` is arity-correct (a binary node has two
    operands, a unary node one), a value has no sharing and no parent pointers to get wrong. What is proved is that a
-   rewrite touches only the rewritten node's neighbourhood. The pointer-level claims about the implementation (links
+   rewrite touches only the rewritten node's neighbourhood and that the set of variables is unchanged (every rule, balanced
+   move included, and every sequence). The pointer-level claims about the implementation (links
    mutually consistent, no node object twice, root without parent, source tree of the clone unmodified) are audited on the
    real heap for every rewrite of every suite run (harness/pyside.py: ser with audit, snapshot). *)
 From Coq Require Import List NArith ZArith QArith Bool.
 From Mathy Require Import Num Expr Util Rules Sem.
-From MathyProofs Require Import ExprFacts RulesSoundA RulesSoundB RulesSoundC RulesSoundD.
+From Mathy Require Import Walk.
+From MathyProofs Require Import ExprFacts RulesSoundA RulesSoundB RulesSoundC RulesSoundD VarsFacts RulesVarsA RulesVarsB RulesVarsC RulesVarsD.
 Import ListNotations.
 
 (* the neighbourhood of a rewrite: the node itself, or its parent for the associative rotation *)
@@ -15,14 +17,14 @@ Theorem C07_neighbourhood : forall r root p z, not_balanced r = true -> can_appl
 Proof.
   intros r root p z NB C A. unfold can_apply, apply in *. destruct (node root p) eqn:N; [|discriminate].
   destruct r; try discriminate NB.
-  - destruct (assoc_sound _ _ _ C A) as (q & d & PP & (a & b & Hs & E & _) & _). exists q, b. split; [right; exists d; now apply parent_path_app|]. split; [congruence|exact E].
-  - destruct (comm_sound _ _ _ _ C A) as (a & b & Hs & E & _). exists p, b. split; auto. split; [congruence|exact E].
-  - destruct (const_sound _ _ _ C A) as (a & b & Hs & E & _). exists p, b. split; auto. split; [congruence|exact E].
-  - destruct (df_sound _ _ _ _ C A) as (a & b & Hs & E & _). exists p, b. split; auto. split; [congruence|exact E].
-  - destruct (dm_sound _ _ _ C A) as (a & b & Hs & E & _). exists p, b. split; auto. split; [congruence|exact E].
-  - destruct (mi_sound _ _ _ C A) as (a & b & Hs & E & _). exists p, b. split; auto. split; [congruence|exact E].
-  - destruct (rs_sound _ _ _ C A) as (a & b & Hs & E & _). exists p, b. split; auto. split; [congruence|exact E].
-  - destruct (vm_sound _ _ _ C A) as (a & b & Hs & E & _). exists p, b. split; auto. split; [congruence|exact E].
+  - destruct (assoc_vars _ _ _ C A) as (q & d & PP & (a & b & Hs & E & _) & _). exists q, b. split; [right; exists d; now apply parent_path_app|]. split; [congruence|exact E].
+  - destruct (comm_vars _ _ _ _ C A) as (a & b & Hs & E & _). exists p, b. split; auto. split; [congruence|exact E].
+  - destruct (const_vars _ _ _ C A) as (a & b & Hs & E & _). exists p, b. split; auto. split; [congruence|exact E].
+  - destruct (df_vars _ _ _ _ C A) as (a & b & Hs & E & _). exists p, b. split; auto. split; [congruence|exact E].
+  - destruct (dm_vars _ _ _ C A) as (a & b & Hs & E & _). exists p, b. split; auto. split; [congruence|exact E].
+  - destruct (mi_vars _ _ _ C A) as (a & b & Hs & E & _). exists p, b. split; auto. split; [congruence|exact E].
+  - destruct (rs_vars _ _ _ C A) as (a & b & Hs & E & _). exists p, b. split; auto. split; [congruence|exact E].
+  - destruct (vm_vars _ _ _ C A) as (a & b & Hs & E & _). exists p, b. split; auto. split; [congruence|exact E].
 Qed.
 Print Assumptions C07_neighbourhood.
 
@@ -50,9 +52,28 @@ Theorem C07_balanced_shape : forall root p z, can_apply root p RBalanced = true 
   exists l r l' r', root = Bin KEq l r /\ fst z = Bin KEq l' r'.
 Proof.
   intros root p z C A. unfold can_apply, apply in *. destruct (node root p); [|discriminate].
-  destruct (bm_sound _ _ _ C A) as (l & r & l' & r' & E & F & _). exists l, r, l', r'. split; assumption.
+  exact (bm_shape _ _ _ C A).
 Qed.
 Print Assumptions C07_balanced_shape.
+
+(* the set of variables of the expression is unchanged by every applicable rewrite of every rule, balanced move included
+   (which moves an addend to the other side, or divides both sides by a constant): a variable occurs after the rewrite
+   exactly when it occurred before *)
+Theorem C07_variables_preserved : forall r root p z, can_apply root p r = true -> apply root p r = ROk z ->
+  forall x, In x (vars root) <-> In x (vars (fst z)).
+Proof. intros r root p z C A. apply sv_elim. exact (any_step_same_vars r root p z C A). Qed.
+Print Assumptions C07_variables_preserved.
+
+(* ... hence by every sequence of rewrites *)
+Theorem C07_variables_preserved_sequence : forall steps root final, run root steps = Some final ->
+  forall x, In x (vars root) <-> In x (vars final).
+Proof. exact run_same_vars. Qed.
+Print Assumptions C07_variables_preserved_sequence.
+
+Example C07_variables_example :
+  let root := Bin KEq (Bin KAdd (Bin KMul (Const (NInt 4)) (Var 120%N)) (Var 121%N)) (Const (NInt 2)) in
+  exists z, apply root [DL; DR] RBalanced = ROk z /\ can_apply root [DL; DR] RBalanced = true /\ fst z <> root /\ vars (fst z) = [120%N; 121%N].
+Proof. eexists. vm_compute. repeat split. discriminate. Qed.
 
 Example C07_example :
   let root := Bin KSub (Bin KMul (Var 121%N) (Bin KAdd (Bin KMul (Const (NInt 4)) (Var 120%N)) (Bin KMul (Const (NInt 2)) (Var 120%N)))) (Var 122%N) in
